@@ -11,6 +11,7 @@ import (
 	"unicode/utf8"
 
 	"github.com/WICG/webpackage/go/internal/cbor"
+	"github.com/WICG/webpackage/go/verifh/gen"
 	"github.com/WICG/webpackage/go/verifh/ref/refcbor"
 	"github.com/WICG/webpackage/go/verifh/vh"
 	"pgregory.net/rapid"
@@ -133,6 +134,13 @@ type CallCase struct {
 	Chunk  int    `json:"chunk"`
 }
 
+// restOf drains a source and says how many octets it still held (the position of readers that
+// cannot be asked for it, e.g. a pipe).
+func restOf(r io.Reader) int {
+	n, _ := io.Copy(io.Discard, r)
+	return int(n)
+}
+
 // run decodes once from the reader kind the case asks for and reports the position reached.
 func runCall(c CallCase) (outcome, int) {
 	if c.Chunk == -1 {
@@ -163,6 +171,13 @@ func runCall(c CallCase) (outcome, int) {
 		br.Seek(int64(len(pre)), io.SeekStart)
 		got := call(cbor.NewDecoder(br), c.Method)
 		return got, len(c.Input) - br.Len()
+	}
+	if c.Chunk == gen.SourceFile || c.Chunk == gen.SourceFileAdvanced || c.Chunk == gen.SourcePipe {
+		// an *os.File: regular file at offset 0 / behind a preamble, or the read end of a pipe
+		src := gen.Source(c.Input, c.Chunk)
+		defer gen.Recycle(src)
+		got := call(cbor.NewDecoder(src), c.Method)
+		return got, len(c.Input) - restOf(src)
 	}
 	if c.Chunk == chunkBufio {
 		// a *bufio.Reader with the smallest buffer (16 octets): strings longer than the buffer
@@ -250,6 +265,7 @@ func followPatterns(w int) [][]byte {
 }
 
 func TestExhaustiveHeads(t *testing.T) {
+	fileTurn := 0
 	n := 0
 	contentKinds := []string{"ascii", "badutf8", "multibyte"}
 	for ib := 0; ib < 256; ib++ {
@@ -325,6 +341,14 @@ func TestExhaustiveHeads(t *testing.T) {
 						n++
 						if !callProp.One(t, CallCase{Input: in, Method: m, Chunk: chunk}) {
 							return
+						}
+					}
+					if fileTurn++; fileTurn%41 == 0 { // a deterministic sample of the same inputs through *os.File sources
+						for _, chunk := range []int{gen.SourceFile, gen.SourceFileAdvanced, gen.SourcePipe} {
+							n++
+							if !callProp.One(t, CallCase{Input: in, Method: m, Chunk: chunk}) {
+								return
+							}
 						}
 					}
 				}
@@ -496,6 +520,7 @@ var streamProp = vh.Define("C12", "stream", func(c StreamCase, r *vh.R) {
 	var src io.Reader
 	pos := func() int { return 0 }
 	recycle := func() {}
+	pipeSrc := false // a pipe cannot be asked for its position; it is checked once, at the end
 	if c.Chunk == chunkBuffer {
 		backing := append(make([]byte, 0, len(b)+32), b...)
 		bb := bytes.NewBuffer(backing)
@@ -513,6 +538,21 @@ var streamProp = vh.Define("C12", "stream", func(c StreamCase, r *vh.R) {
 		br.Seek(int64(len(pre)), io.SeekStart)
 		src, pos = br, func() int { return len(b) - br.Len() }
 		r.Class("source:seekable-advanced")
+	} else if c.Chunk == gen.SourceFile || c.Chunk == gen.SourceFileAdvanced {
+		f := gen.Source(b, c.Chunk)
+		defer gen.Recycle(f)
+		start := int64(0)
+		if sk, ok := f.(io.Seeker); ok {
+			start, _ = sk.Seek(0, io.SeekCurrent)
+			pos = func() int { p, _ := sk.Seek(0, io.SeekCurrent); return int(p - start) }
+		}
+		src = f
+		r.Class("source:os.File")
+	} else if c.Chunk == gen.SourcePipe {
+		f := gen.Source(b, c.Chunk)
+		defer gen.Recycle(f)
+		src, pipeSrc = f, true
+		r.Class("source:pipe")
 	} else if c.Chunk == chunkBufio {
 		br := bytes.NewReader(b)
 		bf := bufio.NewReaderSize(br, 16)
@@ -567,7 +607,7 @@ var streamProp = vh.Define("C12", "stream", func(c StreamCase, r *vh.R) {
 			return
 		}
 		off += consumed
-		if pos() != off {
+		if !pipeSrc && pos() != off {
 			r.Failf("wrong-consumption", "after call %d reader at %d, items end at %d", i, pos(), off)
 			return
 		}
@@ -578,6 +618,15 @@ var streamProp = vh.Define("C12", "stream", func(c StreamCase, r *vh.R) {
 			// the caller extends the value it was given (it owns it): this must not reach the
 			// octets of the items that are still to be decoded
 			_ = append(got.str, 0xEE, 0xEE, 0xEE, 0xEE, 0xEE, 0xEE, 0xEE, 0xEE, 0xEE)
+		}
+	}
+	if pipeSrc && !r.Failed() {
+		if _, endedOK, _, _, _ := expected(b, off, "uint"); true {
+			_ = endedOK
+		}
+		if rest := restOf(src); len(c.Calls) > 0 && okCalls == len(c.Calls) && len(b)-rest != off {
+			r.Failf("wrong-consumption", "after %d successful calls the pipe had handed out %d octets, the items end at %d", okCalls, len(b)-rest, off)
+			return
 		}
 	}
 	recycle() // the caller reuses its input buffer: values already returned are the caller's own copies
@@ -661,7 +710,7 @@ func TestPropStream(t *testing.T) {
 		if rapid.IntRange(0, 3).Draw(t, "extra") == 0 {
 			c.Calls = append(c.Calls, rapid.SampledFrom(methods).Draw(t, "extracall"))
 		}
-		c.Chunk = rapid.SampledFrom([]int{0, 0, 1, 3, -1, -1, -2, -3, -5, chunkBuffer, chunkBuffer, chunkSeekAdvanced, chunkBufio, chunkBufio}).Draw(t, "chunk")
+		c.Chunk = rapid.SampledFrom([]int{0, 0, 1, 3, -1, -1, -2, -3, -5, chunkBuffer, chunkBuffer, chunkSeekAdvanced, chunkBufio, chunkBufio, gen.SourceFile, gen.SourceFileAdvanced, gen.SourcePipe}).Draw(t, "chunk")
 		if rapid.IntRange(0, 3).Draw(t, "docut") == 0 {
 			c.Cut = rapid.IntRange(1, 12).Draw(t, "cut")
 		}
